@@ -187,6 +187,9 @@ func checkC07(c *Ctx, r *Report) {
 	}
 	r.Floor("T1-clock", clockInGate, 1)
 
+	// ---- T6 no state carried from one build to the next ----
+	checkNoCarriedState(c, r, "T6-no-carried-state")
+
 	// ---- T1 SOURCE_DATE_EPOCH gate: no value-dependent handling ----
 	for _, fn := range fns {
 		if c.funcPkgPath(fn) != modPath+"/internal/modtime" {
@@ -303,7 +306,7 @@ func checkC07(c *Ctx, r *Report) {
 	r.Pass("T5", "all module functions", "-", "no go statement in module code")
 
 	// ---- fixture ----
-	checkFixture(c, r, []string{"clock", "rand", "pid", "cpu", "env", "hostname", "go", "gzip-header", "maprange"})
+	checkFixture(c, r, []string{"clock", "rand", "pid", "cpu", "env", "hostname", "go", "gzip-header", "maprange", "globalwrite", "syncmap-write"})
 }
 
 // checkEntryMtimeDefault: nfpm.PrepareForPackager hands Info.MTime to the
@@ -384,6 +387,9 @@ func checkFixture(c *Ctx, r *Report, kinds []string) {
 	}
 	for range scanFsWrites(fx.ModFuncs) {
 		found["fswrite"] = true
+	}
+	for range scanSyncMapWrites(fx.ModFuncs) {
+		found["syncmap-write"] = true
 	}
 	for range scanAtomicMix(fx.ModFuncs) {
 		found["atomic-mix"] = true
@@ -500,3 +506,86 @@ func scanAtomicMix(fns []*ssa.Function) []scanHit {
 }
 
 func pa0(c *Ctx) *provAnalysis { return newProv(c) }
+
+// checkNoCarriedState: "bytes are a function only of the configuration and
+// the sources" also across builds in one process: code on a packaging path
+// (packagers, planner, defaults, validation, signing helpers) writes no
+// package-level variable - neither directly nor through sync.Map - so
+// nothing computed for one build (a stat result, a parsed key, a table) can
+// be seen by the next. Registration of packagers happens outside these paths.
+func checkNoCarriedState(c *Ctx, r *Report, rule string) {
+	var roots []*ssa.Function
+	for _, p := range c.Packagers {
+		roots = append(roots, p.Package, p.FileName)
+	}
+	for _, n := range []string{"PrepareForPackager", "Validate", "WithDefaults"} {
+		if f := c.Func("", n); f != nil {
+			roots = append(roots, f)
+		}
+	}
+	if f := c.Method("", "Config", "Get"); f != nil {
+		roots = append(roots, f)
+	}
+	reach := c.Reach(roots...)
+	var fns []*ssa.Function
+	for _, fn := range sortedFuncs(c, reach) {
+		if c.isModuleFunc(fn) {
+			fns = append(fns, fn)
+		}
+	}
+	n := 0
+	perFn := map[string]int{}
+	report := func(fn *ssa.Function, in ssa.Instruction, what string) {
+		n++
+		fk := c.funcKey(fn)
+		perFn[fk]++
+		r.Fail(rule, fmt.Sprintf("%s#%d in %s", what, perFn[fk], fk), c.instrPos(in), "a package-level variable is written on a packaging path: what one build leaves there (a cached stat result, key or table) is seen by the next build in the same process, so the output no longer depends on the configuration and the sources alone")
+	}
+	for _, h := range scanGlobalWrites(c, fns) {
+		report(h.Fn, h.In, h.Detail)
+	}
+	for _, h := range scanSyncMapWrites(fns) {
+		report(h.Fn, h.In, h.Detail)
+	}
+	r.Count("packaging_path_functions", len(fns))
+	if n == 0 {
+		r.Pass(rule, fmt.Sprintf("no package-level write in %d function(s) on packaging paths", len(fns)), "-", "stores, map updates, deletes and sync.Map writes rooted in package-level variables: none")
+	}
+	if len(fns) < 100 {
+		r.Fail("instance-floor", rule, "-", fmt.Sprintf("only %d functions on packaging paths (expected >= 100)", len(fns)))
+	}
+}
+
+// scanSyncMapWrites: Store/LoadOrStore/Swap/CompareAndSwap/Delete on a
+// sync.Map rooted in a package-level variable.
+func scanSyncMapWrites(fns []*ssa.Function) []scanHit {
+	var hits []scanHit
+	for _, fn := range fns {
+		forEachInstr(fn, func(in ssa.Instruction) {
+			call, ok := in.(ssa.CallInstruction)
+			if !ok {
+				return
+			}
+			o := calleeObj(call)
+			if o == nil {
+				return
+			}
+			sig, _ := o.Type().(*types.Signature)
+			if sig == nil || sig.Recv() == nil || !isPtrToNamed(sig.Recv().Type(), "sync", "Map") {
+				return
+			}
+			switch o.Name() {
+			case "Store", "LoadOrStore", "Swap", "CompareAndSwap", "Delete", "LoadAndDelete", "CompareAndDelete", "Clear":
+			default:
+				return
+			}
+			if len(call.Common().Args) == 0 {
+				return
+			}
+			if g := rootGlobal(call.Common().Args[0]); g != nil {
+				hits = append(hits, scanHit{"syncmap-write", fn, in, "sync.Map." + o.Name() + " on " + globalName(g)})
+			}
+		})
+	}
+	return hits
+}
